@@ -16,7 +16,7 @@ fn count_nodes(e: &GExpr) -> usize {
 }
 
 /// apply `m` to the k-th node (pre-order) of `e`
-fn with_node(e: &mut GExpr, k: &mut usize, m: &mut dyn FnMut(&mut GExpr)) -> bool {
+pub fn with_node(e: &mut GExpr, k: &mut usize, m: &mut dyn FnMut(&mut GExpr)) -> bool {
     if *k == 0 {
         m(e);
         return true;
